@@ -269,6 +269,22 @@ pub fn c16(h: &mut H) {
             let v = rverify(h, &z, &g, &hh, &n, &a, &b);
             h.expect(!v.is_true(), "C16.leaf_edit", &format!("range proof accepted with field {} altered", path), &[h.last()]);
         }
+        // every leaf replaced by ANOTHER REPRESENTATIVE of the same residue (value + N, value - N): the proof is a
+        // different object; the property demands that any altered field is rejected
+        if wi < 2 || h.thorough {
+            for (li, (path, _)) in lv.iter().enumerate() {
+                for sign in [1i32, -1] {
+                    let mut z = rp.clone();
+                    let mut cnt = 0usize;
+                    let nn = n.clone();
+                    let f = move |x: &Integer| if sign > 0 { Integer::from(x + &nn) } else { Integer::from(x - &nn) };
+                    map_leaf(&mut z, &mut cnt, li, &f);
+                    h.stat("C16.leaf_plus_N");
+                    let v = rverify(h, &z, &g, &hh, &n, &a, &b);
+                    h.expect(!v.is_true(), "C16.leaf_other_representative", &format!("range proof accepted with field {} replaced by value {} N", path, if sign > 0 { "+" } else { "-" }), &[h.last()]);
+                }
+            }
+        }
         // hash-valued leaves shifted by multiples of 2^128 (a verifier that compares challenges modulo 2^t)
         for (li, (path, _)) in lv.iter().enumerate() {
             if path.ends_with(".C") || path.ends_with(".challenge") {
